@@ -137,11 +137,14 @@ func TestC05OrderDup(t *testing.T) {
 		cfg := baseConfig()
 		cfg.AtLeastOnceMax = rapid.SampledFrom([]int{1, 2, 3, 5, 16, 64}).Draw(rt, "max1")
 		cfg.ExactlyOnceMax = rapid.SampledFrom([]int{1, 2, 3, 5, 16, 64}).Draw(rt, "max2")
+		// (a clean session asks the broker to start blank; what the client itself
+		// accepted before its first connection is still its to deliver)
+		cfg.CleanSession = rapid.IntRange(0, 2).Draw(rt, "cleanSession") == 0
 		var h *H
 		if rapid.IntRange(0, 3).Draw(rt, "startAtWrap") == 0 && cfg.AtLeastOnceMax > 1 && cfg.ExactlyOnceMax > 1 {
 			h = newWrapH(rt, "C05", cfg, []byte{1, 2})
 		} else {
-			h = newH(rt, "C05", asVolatileSession(rt, sim.Options{Config: cfg}))
+			h = newH(rt, "C05", asVolatileSession(rt, sim.Options{Config: cfgNext}))
 		}
 		h.Act("config AtLeastOnceMax=%d ExactlyOnceMax=%d", cfg.AtLeastOnceMax, cfg.ExactlyOnceMax)
 		var fc faultCounters
@@ -234,7 +237,9 @@ func TestC05OrderDup(t *testing.T) {
 		if rapid.Bool().Draw(rt, "restartAtEnd") && !h.PlainRecords { // (a session without the checksum layer cannot be adopted)
 			h.Shutdown(5 * time.Second)
 			k := rapid.IntRange(2, h.Store.NOps()).Draw(rt, "stopPoint")
-			n, pend := h.restart(restartOpts{K: k, Late: rapid.Bool().Draw(rt, "late"), Config: cfg})
+			cfgNext := cfg
+			cfgNext.CleanSession = false // (the process which adopts the session does not ask for a clean one)
+			n, pend := h.restart(restartOpts{K: k, Late: rapid.Bool().Draw(rt, "late"), Config: cfgNext})
 			n.checkAdoption(pend) // exactly the pending ones, original identifiers, original order, right stage
 			n.checkContinuation(pend)
 			if len(pend) >= 2 {
